@@ -190,6 +190,8 @@ def shards(tier, seed):
     out += [{"mode": "typed", "index": i, "examples": 60 if tier == "quick" else 3000} for i in range(1)]
     out += [{"mode": "values", "index": i, "examples": 2500 if tier == "quick" else 150000} for i in range(2)]
     out.append({"mode": "baseline"})
+    if tier == "thorough":
+        out += [{"mode": "atheris", "index": i, "seconds": 480} for i in range(4)]
     return out
 
 
@@ -209,6 +211,39 @@ def run_shard(spec):
                 col.fail(key, f"{origin}: {what}", {"src": src, "cfg": "all"})
             if col.out_of_time():
                 break
+        return col.result()
+
+    if mode == "atheris":
+        import json as _json
+        import subprocess
+        import sys as _sys
+        import tempfile
+
+        root = __import__("os").path.dirname(__import__("os").path.dirname(__import__("os").path.dirname(__import__("os").path.abspath(__file__))))
+        if not __import__("os").path.isdir(__import__("os").path.join(root, ".deps", "atheris")):
+            col.extra["atheris"] = "unavailable (.deps/atheris missing: run MANIFEST.setup_cmd); Hypothesis-only"
+            col.evaluations += 0
+            return col.result()
+        d = tempfile.mkdtemp(prefix="pv_c12_ath_")
+        try:
+            out = __import__("os").path.join(d, "out.json")
+            subprocess.run([_sys.executable, "-m", "pv.c12_atheris", out, str(spec["seconds"]), str(seed % 100000 + spec["index"])],
+                           cwd=root, stdout=subprocess.DEVNULL, stderr=subprocess.DEVNULL, timeout=spec["seconds"] + 300)
+            data = _json.load(open(out))
+            st_ = data["stats"]
+            col.evaluations += st_["programs"] - st_["discarded"]
+            col.discarded += st_["discarded"]
+            col.extra["atheris_executions"] = st_["executions"]
+            col.extra["atheris_programs"] = st_["programs"]
+            col.classes["route:atheris"] += st_["programs"]
+            for f in data["failures"]:
+                again = replay(f["case"])
+                if again is not None:
+                    col.fail(again["key"], again["what"], again["case"])
+                else:
+                    col.unreproduced += 1
+        finally:
+            __import__("shutil").rmtree(d, ignore_errors=True)
         return col.result()
 
     if mode == "corpus":
